@@ -35,7 +35,7 @@ for mp in sorted(glob.glob(os.path.join(V, "seeded", "*", "meta.json"))):
     missed = [k for k, v in cr.items() if "VIOLATION" not in v["result"]]
     rows.append("| %s | %s | %s | %s | %s | %s |" % (sid, meta.get("property"), (meta.get("summary", "")[:160] + "…").replace("|", "/"),
                                                ", ".join(meta.get("files", [])), meta["caught_by"] or "**NOT CAUGHT**" if cr else "(not run yet)",
-                                               meta["violation_kind"] + ("; missed by " + ", ".join(missed) if missed else "")))
+                                               meta["violation_kind"] + ("; missed by " + ", ".join(missed) if missed else "") + (" — SUPERSEDED: " + meta["superseded_by_fix"] if meta.get("superseded_by_fix") else "")))
 s = "# Seeded changes and what the checks did with them\n\nEach row: a realistic property-breaking change made by a fresh sub-agent that saw only the property text and a scratch worktree of /repo; confirmed by me (demo passes on HEAD, fails with the change, builds, 322-test suite passes). `caught by` lists the checks that reported a VIOLATION with the change applied; the replay it named is kept as seeded/<id>/replay_<Cxx>.json.\n\n| seed | property | change | files | caught by | how |\n|---|---|---|---|---|---|\n" + "\n".join(rows) + "\n"
 open(os.path.join(V, "seeded", "RESULTS.md"), "w").write(s)
 print(len(rows), "seeds;", sum(1 for r in rows if "NOT CAUGHT" in r), "not caught")
